@@ -223,6 +223,9 @@ func observe(db *pogreb.DB, probe [][]byte) (res string) {
 	return s
 }
 
+// segsDurable, when set, returns the durable length of a segment file (power-loss stream).
+var segsDurable func(name string) int
+
 func segsLine(db *pogreb.DB, read func(name string) []byte) string {
 	var sb strings.Builder
 	for i, s := range db.VerifSegments() {
@@ -243,6 +246,9 @@ func segsLine(db *pogreb.DB, read func(name string) []byte) string {
 			return 0
 		}
 		fmt.Fprintf(&sb, "%d:%d:%d:%d:%d:%d:%d:%d", s.ID, s.SequenceID, s.Size, n, crc, b(s.Full), b(s.Current), s.DeleteRecords)
+		if segsDurable != nil {
+			fmt.Fprintf(&sb, ":%d", segsDurable(s.Name))
+		}
 	}
 	if sb.Len() == 0 {
 		return "-"
